@@ -198,7 +198,7 @@ func (c *choiceCasesResolver) getBestCaseName() string {
 	var bestCaseName string
 	bestCasePrio := int32(math.MaxInt32)
 	for caseName, cas := range c.cases {
-		if cas.GetLowestPriorityValue() <= bestCasePrio {
+		if cas.GetLowestPriorityValue() < bestCasePrio {
 			bestCaseName = caseName
 			bestCasePrio = cas.GetLowestPriorityValue()
 		}
